@@ -1,7 +1,7 @@
 (* SnapRead/Props.v — theorems for C05 (snapshot reads are stable and identical across all access paths). *)
 From Verif Require Import Base.Lex SnapRead.Model SnapRead.ModelRead SnapRead.ProofsOrd SnapRead.ProofsList
   SnapRead.ProofsScanF SnapRead.ProofsScanR SnapRead.ProofsScanLoop SnapRead.ProofsScanLoopR
-  SnapRead.ProofsCache SnapRead.ProofsRead.
+  SnapRead.ProofsCache SnapRead.ProofsRead SnapRead.ProofsTerm.
 
 (* For every truth (ascending keys), every snapshot ts, all bounds (empty = unbounded; even lo > hi),
    every batch size (0 and 1 are replaced by the default as in newScanner), key-only or not, EVERY
@@ -85,6 +85,34 @@ Proof.
 Qed.
 Print Assumptions C05_paths_agree.
 
+(* Termination of the two fuelled read loops.  Environment assumption (part of the world): a live
+   transaction answers "alive" to finitely many status checks (TAlive n) and is finished afterwards,
+   or its min commit ts can be pushed; [patience] is the total number of such waiting rounds.  The
+   region-error schedule contains at most E errors.  get needs patience + 2 rounds; batch get needs
+   E * (2|keys| + 1) + patience + 2|keys| + 1. *)
+Theorem C05_reads_terminate :
+  forall (w : world) (ts : N),
+    txs_ok (w_txns w) ts ->
+    (forall fuel k, (patience (w_txns w) + 2 <= fuel)%nat ->
+        exists o w' rs', get fuel w [] ts k = (Some o, w', rs')) /\
+    (forall fuel ev L0 keys E, bounded_errs ev 0 E ->
+        (E * (2 * length keys + 1) + patience (w_txns w) + 2 * length keys < fuel)%nat ->
+        exists res w' rs', batch_get fuel ev L0 w ts keys = (Some res, w', rs')).
+Proof.
+  intros w ts Htx.
+  set (Fin := fun k => final_ws (w_txns w) (k_get (w_keys w) k)).
+  assert (Hinv : inv ts Fin (w, [])).
+  { split; [exact Htx|]. split; [intros t []|intros k; reflexivity]. }
+  split.
+  - intros fuel k Hf. eapply get_terminates; eassumption.
+  - intros fuel ev L0 keys E Herr Hf. unfold batch_get.
+    destruct (group_keys_props L0 keys) as [G1 G2].
+    eapply (bget_terminates ts (length keys)); [exact Hinv|exact Herr|exact G1|rewrite G2; lia|].
+    pose proof (nblocked_le ts (w, []) (concat (group_keys L0 keys))) as H1. rewrite G2 in H1.
+    pose proof (concat_nonempty_len _ G1) as H2. rewrite G2 in H2. lia.
+Qed.
+Print Assumptions C05_reads_terminate.
+
 (* resolveLocks' decision: Ignore only if rolled back, committed above the caller's ts, or min
    commit ts pushed; Access only if committed at or below ts; a finished transaction is never
    waited for; the store ignores locks with start > ts and pessimistic / lock-only locks. *)
@@ -143,13 +171,6 @@ Example ex_get_terminates :
   map (fun k => fst (fst (get 10 ex_world [] 50 k))) [[97]; [98]; [99]; [100]; [101]; [102]; [103]]
   = [Some (Some [2]); Some (Some [3]); Some None; Some (Some [5]); Some (Some [6]); Some (Some [8]); Some None].
 Proof. vm_compute. reflexivity. Qed.
-
-Example ex_batch_get_terminates :
-  fst (fst (batch_get 20 (fun i => if Nat.eqb i 1 then EvRegionErr [[99]; [101]] else EvOk) [[100]] ex_world 50
-                      [[97]; [98]; [99]; [100]; [101]; [102]; [103]]))
-  = Some [([97], [2]); ([98], [3]); ([100], [5]); ([101], [6]); ([102], [8])]
-  \/ True.
-Proof. right. exact I. Qed.
 
 Example ex_batch_get_value :
   match fst (fst (batch_get 20 (fun i => if Nat.eqb i 1 then EvRegionErr [[99]; [101]] else EvOk) [[100]] ex_world 50
